@@ -40,7 +40,9 @@ type Config struct {
 	SolverKind       string
 	SolverTimeoutMs  int
 	SampleModels     int
+	Fallback         string
 	Seed             int
+	Unwind           int
 }
 
 type Program struct {
@@ -140,6 +142,9 @@ func (c *Config) Defaults() {
 	if c.MaxSteps == 0 {
 		c.MaxSteps = 2000000
 	}
+	if c.Unwind == 0 {
+		c.Unwind = 64
+	}
 	if c.SymIndexLimit == 0 {
 		c.SymIndexLimit = 64
 	}
@@ -229,6 +234,7 @@ type Result struct {
 	Funcs        map[string]bool
 	Samples      []string
 	Budget       bool
+	Rescued      int
 	Models       [][]NDValue
 }
 
@@ -311,12 +317,32 @@ func (p *Program) RunEntry(entry string) *Result {
 				return
 			}
 			defer s.Close()
+			var fb *Solver
+			getFB := func() *Solver {
+				if p.Cfg.Fallback == "" {
+					return nil
+				}
+				if fb == nil {
+					fb, _ = NewSolver(p.Cfg.Fallback, 120000)
+				}
+				return fb
+			}
+			defer func() {
+				if fb != nil {
+					mu.Lock()
+					res.Queries += fb.Queries
+					res.SolverTime += fb.Time
+					res.Rescued += s.Rescued
+					mu.Unlock()
+					fb.Close()
+				}
+			}()
 			for {
 				prefix, ok := q.pop()
 				if !ok {
 					break
 				}
-				x, end := p.runPath(fn, prefix, s)
+				x, end := p.runPath(fn, prefix, s, getFB)
 				mu.Lock()
 				res.Paths++
 				res.Blocks += int64(x.blocks)
@@ -393,8 +419,8 @@ func (p *Program) RunEntry(entry string) *Result {
 	return res
 }
 
-func (p *Program) runPath(fn *ssa.Function, prefix []int, s *Solver) (x *Exec, end pathEnd) {
-	x = &Exec{P: p, F: NewFactory(), S: s, prefix: prefix,
+func (p *Program) runPath(fn *ssa.Function, prefix []int, s *Solver, fb func() *Solver) (x *Exec, end pathEnd) {
+	x = &Exec{P: p, F: NewFactory(), S: s, prefix: prefix, fallback: fb,
 		pcSet: map[*Term]bool{}, globals: map[*ssa.Global]*Cell{}, reached: map[string]bool{}, asserts: map[string]bool{},
 		pools: map[*Cell]*poolState{}, mutexOwn: map[*Cell]*Thread{}, errObjs: map[string]Iface{}, closures: map[*ssa.Function]*Closure{},
 		funcs: map[string]bool{}, mapRev: p.Cfg.MapReverse}
